@@ -64,10 +64,12 @@ class Unit:
             return 124, "timeout"
         return rc, out
 
-    def native(self, envextra, run, race=False, timeout=600):
+    def native(self, envextra, run, race=False, timeout=600, test_timeout=None):
         env = dict(ENV, **envextra)
         cmd = ["go", "test", "-tags", "verif", "-overlay", self.ovfile, "-modfile", os.path.join(self.modfile, "go.mod"),
                "-vet=off", "-count=1", "-run", run, "-v"]
+        if test_timeout:
+            cmd += ["-timeout", test_timeout]
         if race:
             cmd.append("-race")
         cmd.append(".")
@@ -79,9 +81,15 @@ class Unit:
 
 def replay_native(unit, harness, label, vx, path):
     json.dump({"harness": harness, "label": label, "vx": vx}, open(path, "w"), indent=1)
-    rc, out = unit.native({"VX_REPLAY": path}, "TestVxReplay$")
+    rc, out = unit.native({"VX_REPLAY": path}, "TestVxReplay$", timeout=120, test_timeout="60s")
     fails = [l.split("VXFAIL", 1)[1].strip() for l in out.splitlines() if "VXFAIL" in l]
     passed = "VXPASS" in out
+    if not fails and not passed and rc != 0:
+        # the natively compiled code crashed (panic in a goroutine, fatal error) or hung
+        for marker in ("panic: test timed out", "fatal error:", "panic:", "timeout"):
+            if marker in out:
+                fails = ["native run crashed or hung: " + marker]
+                break
     return fails, passed, out
 
 
@@ -179,6 +187,8 @@ def run(pid, tier, spec, scratch, seed, t0):
             extra += ["-deadline", grp["deadline_" + tier]]
         if grp.get("max_steps"):
             extra += ["-max-steps", str(grp["max_steps"])]
+        if grp.get("hang_is_violation"):
+            extra += ["-hang-violation"]
         outj = os.path.join(scratch, "rep_%d.json" % len(reports))
         rc, out = u.gosx(hs, solver, workers, extra, outj, spec.get("timeout_" + tier, 3600))
         if not os.path.exists(outj):
